@@ -23,6 +23,7 @@ type ctrlAgent struct {
 	quiescence []string  // State fields the drain acknowledgement depends on (mem/CONTROL_PROTOCOL.md, per-component behaviour)
 	support    string    // universal | cache | translation
 	ctrlTypes  []string  // middleware types that own control verbs
+	pending    string    // State flag that is true while an accepted Drain has not been acknowledged ("" when the draining state itself lasts until the ack)
 }
 
 var mcp = "mem/memcontrolprotocol"
@@ -45,9 +46,9 @@ var ctrlAgents = []ctrlAgent{
 	{rel: "mem/rob", pauseField: "ControlState", pausedC: [2]string{mcp, "StatePaused"}, drainField: "ControlState", drainC: [2]string{mcp, "StateDraining"}, enabledC: [2]string{mcp, "StateEnabled"},
 		quiescence: []string{"Transactions"}, support: "universal", ctrlTypes: []string{"middleware"}},
 	{rel: "mem/vm/tlb", pauseField: "TLBState", pausedC: [2]string{"mem/vm/tlb", "tlbStatePause"}, drainField: "TLBState", drainC: [2]string{"mem/vm/tlb", "tlbStateDrain"}, enabledC: [2]string{"mem/vm/tlb", "tlbStateEnable"},
-		quiescence: []string{"MSHREntries", "HasRespondingMSHR"}, support: "translation", ctrlTypes: []string{"ctrlMiddleware"}},
+		quiescence: []string{"MSHREntries", "HasRespondingMSHR"}, support: "translation", ctrlTypes: []string{"ctrlMiddleware"}, pending: "PendingDrainRsp"},
 	{rel: "mem/vm/mmuCache", pauseField: "CurrentState", pausedC: [2]string{"mem/vm/mmuCache", "mmuCacheStatePause"}, drainField: "CurrentState", drainC: [2]string{"mem/vm/mmuCache", "mmuCacheStateDrain"}, enabledC: [2]string{"mem/vm/mmuCache", "mmuCacheStateEnable"},
-		quiescence: []string{"OutstandingBottomReqs"}, support: "translation", ctrlTypes: []string{"ctrlMiddleware"}},
+		quiescence: []string{"OutstandingBottomReqs"}, support: "translation", ctrlTypes: []string{"ctrlMiddleware"}, pending: "PendingDrainRsp"},
 	{rel: "mem/cache/writeback", pauseField: "CacheState", pausedC: [2]string{"mem/cache/writeback", "cacheStatePaused"}, drainField: "CacheState", drainC: [2]string{"mem/cache/writeback", "cacheStateDraining"}, enabledC: [2]string{"mem/cache/writeback", "cacheStateRunning"},
 		quiescence: []string{"Transactions", "WriteBufferBuf", "BankInflightTransCounts", "BankDownwardInflightTransCounts"}, support: "cache", ctrlTypes: []string{"ctrlMiddleware", "flusher"}},
 	{rel: "mem/cache/writethroughcache", pauseField: "IsPaused", pausedC: [2]string{"", "true"}, drainField: "IsDraining", drainC: [2]string{"", "true"}, enabledC: [2]string{"", "false"},
@@ -205,6 +206,27 @@ func c18Gates(c *Ctx, ag ctrlAgent) {
 		}
 	}
 	c18Settle(c, ag, scope, dvs, pf, paused, draining)
+	if ag.pending != "" {
+		if pend := c.field("serial-gate", ag.rel, "State", ag.pending); pend != nil {
+			qvs := analyseFieldVS(p, scope, roots, pend)
+			np := 0
+			for _, f := range scope {
+				for _, b := range f.Blocks {
+					for _, in := range b.Instrs {
+						call, ok := in.(ssa.CallInstruction)
+						if !ok || !call.Common().IsInvoke() || call.Common().Method.Name() != "PeekIncoming" || portNameOf(call.Common().Value, 0) != "Control" {
+							continue
+						}
+						np++
+						s, seen := qvs.At(in)
+						c.Check(seen && !qvs.Has(s, "true"), "serial-gate", ag.rel+":"+SSAFuncKey(f)+"@Control.PeekIncoming#ack-pending", in.Pos(), "a control command is looked at only when no Drain acknowledgement is pending ("+ag.pending+" ∈ "+qvs.String(s)+")",
+							"the next control command can be taken up while the acknowledgement of an accepted Drain is still pending ("+ag.pending+" may be true: the data path has already moved the agent to 'paused', but the Control port could not send the ack yet). A second Drain then overwrites the recorded command ID/source, so the first Drain is never acknowledged and the only Drain ack carries the second one's ID")
+					}
+				}
+			}
+			c.Check(np > 0, "serial-gate", ag.rel+":ack-pending-sites", token.NoPos, "Control.PeekIncoming site found", "no Control.PeekIncoming site found")
+		}
+	}
 	reach := p.ModCG().Reach(roots, func(fn *ssa.Function) bool { return pkgOfFn(fn) == pkgPath(ag.rel) })
 	// functions reachable from the verb dispatch (control path)
 	var ctrlRoots []*ssa.Function
